@@ -53,7 +53,18 @@ def rpc(rng, i):
     hs = NAMES[:n]
     rounds = rng.randrange(1, 4)
     mid = 100 * i
+    # sometimes a channel also has a consumer that the SERVER cancels before / between the calls
+    srvcancel = {}
+    for h in hs:
+        if rng.random() < 0.25:
+            c = "k" + h
+            steps.append({"do": "consume", "h": h, "as": c})
+            srvcancel[h] = c
     for _ in range(rounds):
+        for h in list(srvcancel):
+            if rng.random() < 0.6:
+                steps.append(srv({"k": "cancel", "ch": ids[h], "tag": srvcancel.pop(h), "nowait": rng.random() < 0.5}))
+                steps.append({"do": "sync"})
         held = []
         for h in hs:
             ch = ids[h]
@@ -504,6 +515,39 @@ def chanclose(rng, i):
     return {"kind": "chanclose", "cfg": {}, "steps": steps}
 
 
+def backlog(rng, i):
+    """More than a megabyte queued behind a stalled transport, then drained by short writes that
+    never block again (large accepts, but smaller than the backlog)."""
+    steps, ids = opens(2, [1, 2])
+    steps.append({"do": "budget", "n": 0})
+    n = rng.choice([1, 2])
+    for k in range(n):
+        steps.append(op("A", "publish", len=rng.choice([1500000, 3145728, 2200000]), pid=50 * i + k))
+    steps.append(op("B", "publish", len=rng.choice([10, 200000]), pid=50 * i + 9))
+    steps.append({"do": "budget", "n": None})
+    steps.append(op("A", "qos"))
+    steps.append(op("B", "qos"))
+    steps.append({"do": "closeconn"})
+    cycle = rng.choice([[300000], [1000000, 70000], [2000000], [1048576], [1048577, 5], [400000, 0, 1]])
+    return {"kind": "backlog", "cfg": {"write_cycle": cycle}, "steps": steps}
+
+
+def hb_silence(rng, i):
+    """Heartbeats negotiated (1 s); the server goes silent while a call is in flight and a consumer
+    waits: everybody must be released by MissedServerHeartbeats within ~2 s."""
+    steps, ids = opens(2, [1, 2])
+    steps.append({"do": "consume", "h": "B", "as": "cB"})
+    steps.append({"do": "hold", "ch": 1})
+    steps.append(dict(op("A", rng.choice(["declare", "qos", "get"])), **{"async": True}))
+    steps.append({"do": "sleep", "ms": 3600 + 200 * (i % 3)})
+    steps.append({"do": "wait", "who": "A"})
+    steps.append(op("B", "qos"))
+    steps.append({"do": "drain", "c": "cB"})
+    steps.append({"do": "closeconn"})
+    return {"kind": "crash-hb-silence", "fault": "silence", "at": i, "cfg": {"heartbeat": 1, "tune": [2047, 131072, 1]},
+            "steps": steps}
+
+
 # --------------------------------------------------------------------------- C05
 def rich_session(variant=0):
     """A scripted session touching every part of the client: two channels, declare, consume,
@@ -642,7 +686,7 @@ def batches(rng, maxlen, bases, reps=1):
     return res
 
 
-FAMILIES = {"listener_cross": listener_cross, "close_slow": close_slow, "consumer_drop": consumer_drop, "rpc": rpc, "content": content, "consumer": consumer, "listeners": listeners,
+FAMILIES = {"backlog": backlog, "hb_silence": hb_silence, "listener_cross": listener_cross, "close_slow": close_slow, "consumer_drop": consumer_drop, "rpc": rpc, "content": content, "consumer": consumer, "listeners": listeners,
             "connclose": connclose, "chanclose": chanclose}
 
 
